@@ -350,7 +350,7 @@ func (db *RockDB) ZAdd(ts int64, key []byte, args ...common.ScorePair) (int64, e
 	slow.LogLargeCollection(int(newNum), slow.NewSlowLogInfo(string(table), string(key), "zset"))
 	if newNum > collectionLengthForMetric {
 		metric.CollectionLenDist.With(ps.Labels{
-			"table": string(table),
+			"table": metric.LabelValue(string(table)),
 		}).Observe(float64(newNum))
 	}
 	err = db.rockEng.Write(wb)
